@@ -866,3 +866,106 @@ func feasiblePath(path []Fact) bool {
 	}
 	return true
 }
+
+// feasiblyReaches reports whether some acyclic CFG path leads from instruction `from` to instruction `to` on which no
+// branch contradicts what is already decided: the branch facts that hold at `from` (dominating Ifs) and the branches
+// taken earlier on the path, with phi conditions resolved along the path. It is a refinement of plain reachability
+// for code of the form `if !ok { act }; if ok { return err }`. When the enumeration bound is hit it answers true.
+func feasiblyReaches(from, to ssa.Instruction, limit int) bool {
+	fb, tb := from.Block(), to.Block()
+	if fb == tb {
+		return instrIndex(from) < instrIndex(to) || reachableFrom(fb)[fb]
+	}
+	canReach := map[*ssa.BasicBlock]bool{}
+	var mark func(b *ssa.BasicBlock)
+	mark = func(b *ssa.BasicBlock) {
+		if canReach[b] {
+			return
+		}
+		canReach[b] = true
+		for _, p := range b.Preds {
+			mark(p)
+		}
+	}
+	mark(tb)
+	if !canReach[fb] {
+		return false
+	}
+	type kv struct {
+		v     ssa.Value
+		truth bool
+	}
+	var base []kv
+	for _, fa := range factsAt(fb) {
+		v, t := normCond(fa.Cond, fa.Truth)
+		base = append(base, kv{v, t})
+	}
+	steps := 0
+	found := false
+	var walk func(b *ssa.BasicBlock, path []*ssa.BasicBlock, known []kv)
+	walk = func(b *ssa.BasicBlock, path []*ssa.BasicBlock, known []kv) {
+		if found {
+			return
+		}
+		steps++
+		if steps > limit {
+			found = true // undecided: assume reachable
+			return
+		}
+		path = append(path, b)
+		if b == tb {
+			found = true
+			return
+		}
+		last := b.Instrs[len(b.Instrs)-1]
+		iff, isIf := last.(*ssa.If)
+		for si, s := range b.Succs {
+			if !canReach[s] {
+				continue
+			}
+			onPath := false
+			for _, pb := range path {
+				if pb == s {
+					onPath = true
+				}
+			}
+			if onPath {
+				continue
+			}
+			nk := known
+			if isIf {
+				v, t := normCond(iff.Cond, si == 0)
+				// resolve a phi condition along the path
+				for i := 0; i < 4; i++ {
+					phi, ok := v.(*ssa.Phi)
+					if !ok {
+						break
+					}
+					r := phiOnPath(phi, path)
+					if r == nil {
+						break
+					}
+					v, t = normCond(r, t)
+				}
+				if c, ok := v.(*ssa.Const); ok && c.Value != nil && c.Value.Kind() == constant.Bool {
+					if constant.BoolVal(c.Value) != t {
+						continue
+					}
+				}
+				contradiction := false
+				for _, k := range known {
+					if k.v == v && k.truth != t {
+						contradiction = true
+					}
+				}
+				if contradiction {
+					continue
+				}
+				nk = append(append([]kv(nil), known...), kv{v, t})
+			}
+			walk(s, path, nk)
+		}
+	}
+	walk(fb, nil, base)
+	return found
+}
